@@ -146,7 +146,65 @@ func runOp(name string, hexArgs []string, dumpDir string) (reply string) {
 // 4 bytes, then per function ULEB128 nCtrs, pkgIdx, funcIdx, counters..., then a
 // 16-byte footer) and returns a hash over the functions with at least one
 // non-zero counter.  ok=false if the layout is not understood.
+// extPk holds the coverage package ids of the standard-library packages the
+// cover build instruments in addition to the library (math/big); set by
+// calibrateExt in the cover build.  Their counters are hashed separately: an
+// operation may legitimately run them on public outputs (DER encoding of r, s),
+// so they are compared only where that cannot be the explanation.
+var extPk map[uint32]bool
+
+// counterPackages returns the package ids with at least one non-zero counter.
+func counterPackages(b []byte) map[uint32]bool {
+	out := map[uint32]bool{}
+	walkCounters(b, func(pk, fi uint32, counts []uint32) {
+		for _, c := range counts {
+			if c != 0 {
+				out[pk] = true
+				return
+			}
+		}
+	})
+	return out
+}
+
 func canonicalCounters(b []byte) (string, bool) {
+	lib, ext := sha256.New(), sha256.New()
+	extAny := false
+	ok := walkCounters(b, func(pk, fi uint32, counts []uint32) {
+		nz := false
+		rec := []byte(fmt.Sprintf("%d/%d:", pk, fi))
+		for _, c := range counts {
+			if c != 0 {
+				nz = true
+			}
+			rec = append(rec, []byte(fmt.Sprintf("%d,", c))...)
+		}
+		if !nz {
+			return
+		}
+		h := lib
+		if extPk[pk] {
+			h, extAny = ext, true
+		}
+		h.Write(rec)
+		h.Write([]byte{'\n'})
+	})
+	if !ok {
+		return "", false
+	}
+	e := "0"
+	if extAny {
+		e = hex.EncodeToString(ext.Sum(nil)[:8])
+	}
+	return hex.EncodeToString(lib.Sum(nil)[:16]) + "/" + e, true
+}
+
+func walkCounters(b []byte, visit func(pk, fi uint32, counts []uint32)) bool {
+	_, ok := walkCountersImpl(b, visit)
+	return ok
+}
+
+func walkCountersImpl(b []byte, visit func(pk, fi uint32, counts []uint32)) (string, bool) {
 	if len(b) < 32+16+16 || !bytes.Equal(b[:4], []byte{0x00, 0x63, 0x77, 0x6d}) {
 		return "", false
 	}
@@ -186,7 +244,7 @@ func canonicalCounters(b []byte) (string, bool) {
 			shift += 7
 		}
 	}
-	h := sha256.New()
+	var counts []uint32
 	for i := uint64(0); i < fcn; i++ {
 		n, ok1 := next()
 		pk, ok2 := next()
@@ -194,25 +252,18 @@ func canonicalCounters(b []byte) (string, bool) {
 		if !ok1 || !ok2 || !ok3 {
 			return "", false
 		}
-		rec := []byte(fmt.Sprintf("%d/%d:", pk, fi))
-		nz := false
+		counts = counts[:0]
 		for j := uint32(0); j < n; j++ {
 			c, ok := next()
 			if !ok {
 				return "", false
 			}
-			if c != 0 {
-				nz = true
-			}
-			rec = append(rec, []byte(fmt.Sprintf("%d,", c))...)
+			counts = append(counts, c)
 		}
-		if nz {
-			h.Write(rec)
-			h.Write([]byte{'\n'})
-		}
+		visit(pk, fi, counts)
 	}
 	if len(p) != 0 {
 		return "", false
 	}
-	return hex.EncodeToString(h.Sum(nil)[:16]), true
+	return "", true
 }
